@@ -214,6 +214,14 @@ theorem hooks_as_documented :
     Generated.kittyHook = [Tok.st, Tok.st, Tok.kittyEndChunked] ∧ Generated.itermHook = [Tok.st, Tok.st] := by
   decide
 
+/-- translator tie: `_handle_interrupted_draw_` is handed the NORMALIZED render arguments (`RenderArgs` of the renderable's
+    own class) on every path — by the still-image branch of `draw()` (`real_render_args`), and by `_animate_`, which gets
+    them from `draw()` as its `render_args` parameter. The model's hook (`hookProg`) therefore cannot fail on the
+    arguments; a hook that is given the raw `render_args` of the caller raises before it has written anything. -/
+theorem hook_gets_normalized_args :
+    Generated.hookArgsStill = "real_render_args" ∧ Generated.animateArgs = "real_render_args" ∧
+    Generated.hookArgsAnim = "render_args" := by decide
+
 /-- a single `ST` already does (the second one is for Konsole, says the code) -/
 theorem st_recovers (s : PState) : pfeed s (itemChars (.tok .st)) = .ground := by
   cases s <;> decide
